@@ -189,7 +189,7 @@ func fixFilegroup(r *Repo, tg *RTarget) {
 func (r *Repo) Dependents(label string) []string {
 	var out []string
 	for _, t := range r.Targets {
-		for _, d := range t.Deps() {
+		for _, d := range r.ResolvedDeps(t) {
 			if d == label {
 				out = append(out, t.Label())
 			}
